@@ -41,8 +41,8 @@ theorem setNsCore_conflicts (s : N) (e p c : El) (pol : Policy) (hp : p ∉ s.su
 
 /-- **`add(parent, child)` in general**, including the adoption of the parent's policy by the child's
     whole subtree (`apply_namespace`) or the loss of the child's policy (`drop_namespace`). -/
-theorem attach_nsinv (s : N) (p c : El) (h : NsInv s) : NsInv (step s (.attach p c)).1 := by
-  simp only [step]
+theorem attach_nsinv (s : N) (p c : El) (h : NsInv s) : NsInv (stepCore s (.attach p c)).1 := by
+  simp only [stepCore]
   split
   · exact h
   · split
@@ -74,16 +74,16 @@ theorem attach_nsinv (s : N) (p c : El) (h : NsInv s) : NsInv (step s (.attach p
           · simp only [ne_eq, not_true_eq_false, if_false]
             exact register_nsinv s p c h hpar' hconf' hv'
 
-theorem setNs_nsinv (s : N) (e pol) (h : NsInv s) : NsInv (step s (.setNs e pol)).1 := by
-  simp only [step]
+theorem setNs_nsinv (s : N) (e pol) (h : NsInv s) : NsInv (stepCore s (.setNs e pol)).1 := by
+  simp only [stepCore]
   split
   · exact h
   · split
     · exact h
     · exact setNsCore_nsinv s e pol h
 
-theorem delNs_nsinv (s : N) (e) (h : NsInv s) : NsInv (step s (.delNs e)).1 := by
-  simp only [step]
+theorem delNs_nsinv (s : N) (e) (h : NsInv s) : NsInv (stepCore s (.delNs e)).1 := by
+  simp only [stepCore]
   split
   · exact h
   · split
